@@ -485,7 +485,7 @@ theorem stepRun_T {cfg : Cfg} {sd lo : Prop} {s : St} (a : InvA cfg s) (b : InvB
   simp only
   -- a receive ends without a message: the held message (if any) is dropped
   have dropped : ∀ (t : Tid) (o : Obs), boring o → alive (s0.status t) = true →
-      InvT cfg sd lo ((({ s0 with vres := none, rcvBusy := false, gone := s0.gone ++ s0.vres.toList.map (fun n => (n, false)) } : St).emit o).finish t) :=
+      InvT cfg sd lo ((({ s0 with vres := none, rcvBusy := false, queue := s0.vres.toList ++ s0.queue } : St).emit o).finish t) :=
     fun t o ho hal => i0.ret_finish t o ho hal rfl rfl
   split
   · -- cancelled
@@ -503,7 +503,7 @@ theorem stepRun_T {cfg : Cfg} {sd lo : Prop} {s : St} (a : InvA cfg s) (b : InvB
       subst htu
       split
       · exact dropped _ _ ⟨by simp, by simp, by simp⟩ hal
-      · refine InvT.enter (s := ({ s0 with vres := none, rcvBusy := false, gone := _ } : St).setStatus (.U u) .ready) ?_
+      · refine InvT.enter (s := ({ s0 with vres := none, rcvBusy := false, queue := _ } : St).setStatus (.U u) .ready) ?_
           (enterClose_spec (ClosePre.of_cancelled a0 b0 (c := .userTail u .cancelled) rfl (stageOf_user u) rfl rfl (fun _ => rfl)) rfl)
         refine i0.ext [] (by simp [St.setStatus]) boring_nil (Or.inr ⟨rfl, rfl⟩) (fun h => by simp [St.setStatus] at h) ?_ id
           (Or.inr ⟨by simp [St.setStatus], by simp [St.setStatus]⟩)
